@@ -145,7 +145,11 @@ StatefulK == {"strm", "rout"}
 LazyK == StatefulK \cup {"pat"}
 NPOINTS == 3
 EndV == [x |-> 2, s |-> "end"]
-MarkV == [x |-> 3, s |-> "mark"]
+\* the marker item that follows the composition in a list pattern tells the input value it was asked with
+MarkV(iv) == [x |-> 3, s |-> iv]
+\* input values: the j-th next() of an observation is called with input value Inv(invs, j) (an identifier; 0 = none)
+Inv(invs, j) == invs[((j - 1) % Len(invs)) + 1]
+NInv(invs) == LET S == {invs[i] : i \in 1..Len(invs)} IN CHOOSE x \in S : \A y \in S : y <= x
 \* equality of values / outcomes that never compares texts of different categories (x: 0 value, 1 exception, 2 end, 3 marker)
 ValEq(a, b) == IF a.x # b.x THEN FALSE ELSE a.s = b.s
 OutEq(a, b) == /\ ValEq(a.v, b.v) /\ Len(a.c) = Len(b.c) /\ \A p \in 1..Len(a.c) : ValEq(a.c[p], b.c[p])
@@ -157,7 +161,11 @@ Prod(d, k) == IF k > Len(d) THEN 1 ELSE d[k] * Prod(d, k + 1)
 RECURSIVE Flat0(_, _, _)
 Flat0(ix, d, k) == IF k > Len(ix) THEN 0 ELSE (ix[k] - 1) + d[k] * Flat0(ix, d, k + 1)
 Flat(ix, d) == Flat0(ix, d, 1) + 1
-Dims(ops) == [k \in 1..Len(ops) |-> IF ops[k].k = "num" THEN 1 ELSE IF ops[k].k = "fn" THEN NPOINTS ELSE ops[k].n]
+\* an operand with rd = TRUE computes its element from the input value of the step (Pfunc, Pkey, FunctionStream ...): its
+\* leaves are indexed by the input value identifiers 1..ni; n still says after how many elements it ends (99: never)
+Reads(ops, k) == ops[k].k \in {"pat", "strm", "rout"} /\ ops[k].rd
+Dims(ops, ni) == [k \in 1..Len(ops) |-> IF ops[k].k = "num" THEN 1 ELSE IF ops[k].k = "fn" THEN NPOINTS
+                                         ELSE IF Reads(ops, k) THEN ni ELSE ops[k].n]
 Dispatcher(ops) ==
     IF \A k \in 1..Len(ops) : ops[k].k = "num" THEN 0
     ELSE CHOOSE k \in 1..Len(ops) : ops[k].k # "num" /\ \A j \in 1..(k - 1) : ops[j].k = "num"
@@ -172,57 +180,63 @@ Cursors(ops) == {Cursor(ops, k) : k \in {j \in 1..Len(ops) : ops[j].k \in LazyK 
 Cur0(ops) == [c \in Cursors(ops) |-> 0]
 
 \* one step of a traversal that has completed c steps: indices drawn, or the end
-RECURSIVE Draw(_, _, _, _, _)
-Draw(ops, k, cur, c, ix) ==
+\* (iv: the input value of this next(): it reaches EVERY operand that reads it, at every step, however the
+\*  composition is traversed - streamed, embedded, nested, repeated)
+RECURSIVE Draw(_, _, _, _, _, _)
+Draw(ops, k, cur, c, ix, iv) ==
     IF k > Len(ops) THEN [ok |-> TRUE, cur |-> cur, ix |-> ix]
-    ELSE IF ops[k].k \in {"num", "fn"} THEN Draw(ops, k + 1, cur, c, Append(ix, 1))
+    ELSE IF ops[k].k \in {"num", "fn"} THEN Draw(ops, k + 1, cur, c, Append(ix, 1), iv)
     ELSE IF PerTraversal(ops, k)
          THEN (IF c + 1 > ops[k].n THEN [ok |-> FALSE, cur |-> cur, ix |-> ix]
-               ELSE Draw(ops, k + 1, cur, c, Append(ix, c + 1)))
+               ELSE Draw(ops, k + 1, cur, c, Append(ix, IF Reads(ops, k) THEN iv ELSE c + 1), iv))
     ELSE LET s == Cursor(ops, k) IN
          IF cur[s] + 1 > ops[k].n THEN [ok |-> FALSE, cur |-> cur, ix |-> ix]
-         ELSE Draw(ops, k + 1, [cur EXCEPT ![s] = @ + 1], c, Append(ix, cur[s] + 1))
-Element(ops, ix, tab) ==
-    LET d == Dims(ops)
+         ELSE Draw(ops, k + 1, [cur EXCEPT ![s] = @ + 1], c, Append(ix, IF Reads(ops, k) THEN iv ELSE cur[s] + 1), iv)
+Element(ops, ix, tab, ni) ==
+    LET d == Dims(ops, ni)
         fns == {k \in 1..Len(ops) : ops[k].k = "fn"} IN
     IF fns = {} THEN Outc(tab[Flat(ix, d)], <<>>)
     ELSE Outc(FnV, [p \in 1..NPOINTS |-> tab[Flat([k \in 1..Len(ix) |-> IF k \in fns THEN p ELSE ix[k]], d)]])
 Dies(e, gen) == gen /\ e.c = <<>> /\ e.v.x = 1
 \* one next() of a traversal t = [c, st]; st: "alive", "dying" (its generator raised), "dead"
-Call(ops, tab, cur, t, gen) ==
+Call(ops, tab, cur, t, gen, iv, ni) ==
     IF t.st = "dying" THEN [out |-> Outc(EndV, <<>>), cur |-> cur, t |-> [c |-> t.c, st |-> "dead"]]
-    ELSE LET d == Draw(ops, 1, cur, t.c, <<>>) IN
+    ELSE LET d == Draw(ops, 1, cur, t.c, <<>>, iv) IN
          IF ~d.ok THEN [out |-> Outc(EndV, <<>>), cur |-> d.cur, t |-> [c |-> t.c, st |-> "dead"]]
-         ELSE LET e == Element(ops, d.ix, tab) IN
+         ELSE LET e == Element(ops, d.ix, tab, ni) IN
               [out |-> e, cur |-> d.cur, t |-> [c |-> t.c + 1, st |-> IF Dies(e, gen) THEN "dying" ELSE "alive"]]
 Fresh0 == [c |-> 0, st |-> "alive"]
 \* a whole traversal: outcomes without the end marker, the cursors afterwards, whether it was ended by an exception
-RECURSIVE RunOne(_, _, _, _, _, _)
-RunOne(ops, tab, cur, t, gen, fuel) ==
+\* (j: the number of the next() call that produces the next outcome; a traversal that ends inside call j hands the
+\*  input value of call j on, so whatever follows it in the enclosing pattern starts with that same input value)
+RECURSIVE RunOne(_, _, _, _, _, _, _, _)
+RunOne(ops, tab, cur, t, gen, fuel, j, invs) ==
     IF fuel = 0 THEN [outs |-> <<>>, cur |-> cur, died |-> FALSE]
-    ELSE LET r == Call(ops, tab, cur, t, gen) IN
+    ELSE LET r == Call(ops, tab, cur, t, gen, Inv(invs, j), NInv(invs)) IN
          IF r.t.st = "dead" THEN [outs |-> <<>>, cur |-> r.cur, died |-> t.st = "dying"]
-         ELSE LET rest == RunOne(ops, tab, r.cur, r.t, gen, fuel - 1) IN
+         ELSE LET rest == RunOne(ops, tab, r.cur, r.t, gen, fuel - 1, j + 1, invs) IN
               [outs |-> <<r.out>> \o rest.outs, cur |-> rest.cur, died |-> rest.died]
-RECURSIVE RunInter(_, _, _, _, _, _, _, _)
-RunInter(ops, tab, cur, t1, t2, turn, gen, fuel) ==
+RECURSIVE RunInter(_, _, _, _, _, _, _, _, _, _)
+RunInter(ops, tab, cur, t1, t2, turn, gen, fuel, j, invs) ==
     IF (t1.st = "dead" /\ t2.st = "dead") \/ fuel = 0 THEN <<>>
     ELSE LET who == IF turn = 1 THEN (IF t1.st = "dead" THEN 2 ELSE 1) ELSE (IF t2.st = "dead" THEN 1 ELSE 2)
-             r == Call(ops, tab, cur, IF who = 1 THEN t1 ELSE t2, gen)
+             r == Call(ops, tab, cur, IF who = 1 THEN t1 ELSE t2, gen, Inv(invs, j), NInv(invs))
          IN <<r.out>> \o RunInter(ops, tab, r.cur, IF who = 1 THEN r.t ELSE t1, IF who = 2 THEN r.t ELSE t2,
-                                  3 - who, gen, fuel - 1)
+                                  3 - who, gen, fuel - 1, j + 1, invs)
 FUEL == 40
 EndO == Outc(EndV, <<>>)
-LazyExpected(ops, tab, law, gen) ==
-    LET r1 == RunOne(ops, tab, Cur0(ops), Fresh0, gen, FUEL) IN
+LazyExpected(ops, tab, law, gen, invs) ==
+    LET r1 == RunOne(ops, tab, Cur0(ops), Fresh0, gen, FUEL, 1, invs)
+        n1 == Len(r1.outs) IN
     CASE law = "once" -> r1.outs \o <<EndO>>
-      [] law = "tail" -> r1.outs \o (IF r1.died THEN <<>> ELSE <<Outc(MarkV, <<>>)>>) \o <<EndO>>
-      [] law = "twice" -> r1.outs \o (IF r1.died THEN <<>> ELSE RunOne(ops, tab, r1.cur, Fresh0, gen, FUEL).outs) \o <<EndO>>
-      [] law = "inter" -> RunInter(ops, tab, Cur0(ops), Fresh0, Fresh0, 1, gen, 2 * FUEL)
-LazyWhy(ops, tab, law, gen, O) ==
+      [] law = "tail" -> r1.outs \o (IF r1.died THEN <<>> ELSE <<Outc(MarkV(Inv(invs, n1 + 1)), <<>>)>>) \o <<EndO>>
+      [] law = "twice" -> r1.outs \o (IF r1.died THEN <<>> ELSE RunOne(ops, tab, r1.cur, Fresh0, gen, FUEL, n1 + 1, invs).outs)
+                          \o <<EndO>>
+      [] law = "inter" -> RunInter(ops, tab, Cur0(ops), Fresh0, Fresh0, 1, gen, 2 * FUEL, 1, invs)
+LazyWhy(ops, tab, law, gen, O, invs) ==
     IF ~LazyDefined(ops) THEN "lazy:undefined-kinds"
-    ELSE IF Len(tab) # Prod(Dims(ops), 1) THEN "lazy:bad-table"
-    ELSE LET E == LazyExpected(ops, tab, law, gen)
+    ELSE IF Len(tab) # Prod(Dims(ops, NInv(invs)), 1) THEN "lazy:bad-table"
+    ELSE LET E == LazyExpected(ops, tab, law, gen, invs)
              n == Min2(Len(E), Len(O))
              bad == {i \in 1..n : ~OutEq(E[i], O[i])} IN
          IF bad = {} THEN (IF Len(O) < Len(E) THEN "lazy:ends-early" ELSE IF Len(O) > Len(E) THEN "lazy:too-long" ELSE "ok")
@@ -231,6 +245,7 @@ LazyWhy(ops, tab, law, gen, O) ==
               ELSE IF E[i].v.x = 2 THEN "lazy:too-long"
               ELSE IF O[i].v.x = 1 /\ O[i].c = <<>> /\ E[i].v.x # 1 THEN "lazy:raised:" \o O[i].v.s
               ELSE IF (O[i].c = <<>>) # (E[i].c = <<>>) THEN "lazy:element-kind"
+              ELSE IF E[i].v.x = 3 /\ O[i].v.x = 3 THEN "lazy:input-value-handed-on"
               ELSE "lazy:value"
 
 (* ------------------------------ functions: the call shape ------------------------------------------
@@ -425,16 +440,28 @@ PickSame == /\ phase = "start"
                  ca' = A /\ cb' = A /\ ka' = "strm" /\ kb' = "same" /\ phase' = "lift" /\ args' = <<>>
 \* lazily evaluated compositions: kinds per argument position (1..3 positions), lengths, one optional pair of
 \* positions referring to the same stream object, traversal law, generator or not, kernel raising somewhere or not
-LazyOpt == {[k |-> "num", n |-> 1], [k |-> "fn", n |-> NPOINTS]}
-           \cup {[k |-> "pat", n |-> n] : n \in {2, 3}}
-           \cup {[k |-> kk, n |-> n] : kk \in StatefulK, n \in {2, 4}}
-WithSid(v, sh) == [k \in 1..Len(v) |-> [k |-> v[k].k, n |-> v[k].n, sid |-> IF sh[2] = k THEN sh[1] ELSE k]]
+LazyOpt == {[k |-> "num", n |-> 1, rd |-> FALSE], [k |-> "fn", n |-> NPOINTS, rd |-> FALSE]}
+           \cup {[k |-> "pat", n |-> n, rd |-> FALSE] : n \in {2, 3}}
+           \cup {[k |-> kk, n |-> n, rd |-> FALSE] : kk \in StatefulK, n \in {2, 4}}
+\* operands that compute their element from the input value (never ending: n = 99), next to a few plain ones
+LazyOptR == {[k |-> "pat", n |-> 99, rd |-> TRUE], [k |-> "pat", n |-> 2, rd |-> TRUE], [k |-> "strm", n |-> 99, rd |-> TRUE]}
+LazyOptP == {[k |-> "num", n |-> 1, rd |-> FALSE], [k |-> "pat", n |-> 2, rd |-> FALSE], [k |-> "strm", n |-> 3, rd |-> FALSE]}
+InvSeq == <<1, 2, 3, 2, 1, 3, 3, 1>>
+EndsSomewhere(v) == \E k \in 1..Len(v) : v[k].k \in LazyK /\ v[k].n < 99
+WithSid(v, sh) == [k \in 1..Len(v) |-> [k |-> v[k].k, n |-> v[k].n, rd |-> v[k].rd, sid |-> IF sh[2] = k THEN sh[1] ELSE k]]
 Shares(v) == {<<0, 0>>} \cup {<<j, k>> \in (1..Len(v)) \X (1..Len(v)) : j < k /\ v[j].k \in StatefulK /\ v[j] = v[k]}
 LawModes == {<<"once", FALSE>>, <<"once", TRUE>>, <<"tail", TRUE>>, <<"twice", TRUE>>, <<"inter", FALSE>>, <<"inter", TRUE>>}
 PickLazy == /\ phase = "start"
             /\ \E m \in 1..3 : \E v \in [1..m -> LazyOpt] : \E sh \in Shares(v), lm \in LawModes, xv \in BOOLEAN :
                  /\ LazyDefined(WithSid(v, sh))
-                 /\ args' = <<WithSid(v, sh), lm[1], lm[2], xv>> /\ phase' = "lazy" /\ UNCHANGED <<ca, cb, ka, kb>>
+                 /\ args' = <<WithSid(v, sh), lm[1], lm[2], xv, <<0>>>> /\ phase' = "lazy" /\ UNCHANGED <<ca, cb, ka, kb>>
+\* ... and with operands that read the input value, called with input values that change from call to call
+PickLazyInput ==
+    /\ phase = "start"
+    /\ \E m \in 1..3 : \E v \in [1..m -> LazyOptR \cup LazyOptP] : \E lm \in LawModes, xv \in BOOLEAN :
+         /\ \E k \in 1..m : v[k].rd
+         /\ EndsSomewhere(v) /\ LazyDefined(WithSid(v, <<0, 0>>))
+         /\ args' = <<WithSid(v, <<0, 0>>), lm[1], lm[2], xv, InvSeq>> /\ phase' = "lazy" /\ UNCHANGED <<ca, cb, ka, kb>>
 \* call shapes: parameter lists of the base functions, a pool of calls, the way the composite is built
 SigPool == {<<"p0">>, <<"p0", "a">>, <<"p0", "b">>, <<"p0", "a", "b">>}
 SigPool_seq == <<<<"p0">>, <<"p0", "a">>, <<"p0", "b">>, <<"p0", "a", "b">>>>
@@ -460,7 +487,7 @@ PickKernel == /\ phase = "start"
               /\ \E x \in Window, lo \in Window, hi \in Window, q \in Quanta :
                    /\ lo <= hi
                    /\ args' = <<x, lo, hi, q>> /\ phase' = "kernel" /\ UNCHANGED <<ca, cb, ka, kb>>
-Next == PickList \/ PickFn \/ PickStream \/ PickScalar \/ PickSame \/ PickLazy \/ PickCall \/ PickKernel
+Next == PickList \/ PickFn \/ PickStream \/ PickScalar \/ PickSame \/ PickLazy \/ PickLazyInput \/ PickCall \/ PickKernel
 Spec == Init /\ [][Next]_vars
 
 \* the prescribed result, flattened, as the observation
@@ -505,21 +532,25 @@ Symmetric ==
 \* (c) lazily evaluated compositions, on the free kernel table whose value at an index tuple is the tuple itself
 RECURSIVE Unflat(_, _, _)
 Unflat(f, d, k) == IF k > Len(d) THEN <<>> ELSE <<(f % d[k]) + 1>> \o Unflat(f \div d[k], d, k + 1)
+LInv == args[5]
 LazyTab(ops, xv) ==
-    [f \in 1..Prod(Dims(ops), 1) |-> IF xv /\ f = 2 THEN [x |-> 1, s |-> "X"] ELSE [x |-> 0, s |-> Unflat(f - 1, Dims(ops), 1)]]
+    LET d == Dims(ops, NInv(LInv)) IN
+    [f \in 1..Prod(d, 1) |-> IF xv /\ f = 2 THEN [x |-> 1, s |-> "X"] ELSE [x |-> 0, s |-> Unflat(f - 1, d, 1)]]
 LOps == args[1]
-LExp == LazyExpected(LOps, LazyTab(LOps, args[4]), args[2], args[3])
+LExp == LazyExpected(LOps, LazyTab(LOps, args[4]), args[2], args[3], LInv)
 LazyPos(ops) == {k \in 1..Len(ops) : ops[k].k \in LazyK}
 NoShare(ops) == \A j, k \in 1..Len(ops) : (j # k /\ ops[j].k \in StatefulK /\ ops[k].k \in StatefulK) => ops[j].sid # ops[k].sid
 NoFn(ops) == \A k \in 1..Len(ops) : ops[k].k # "fn"
 RECURSIVE MinLen(_, _)
 MinLen(ops, k) == IF k > Len(ops) THEN 1000 ELSE Min2(IF ops[k].k \in LazyK THEN ops[k].n ELSE 1000, MinLen(ops, k + 1))
 ShortSeq(ops, tab) ==
-    [j \in 1..MinLen(ops, 1) |-> Outc(tab[Flat([k \in 1..Len(ops) |-> IF ops[k].k \in LazyK THEN j ELSE 1], Dims(ops))], <<>>)]
+    [j \in 1..MinLen(ops, 1) |->
+        Outc(tab[Flat([k \in 1..Len(ops) |-> IF Reads(ops, k) THEN Inv(LInv, j) ELSE IF ops[k].k \in LazyK THEN j ELSE 1],
+                      Dims(ops, NInv(LInv)))], <<>>)]
 \* the matcher accepts the prescribed observation and rejects it when an outcome is dropped
 LazyAccepts == phase = "lazy" =>
-    /\ LazyWhy(LOps, LazyTab(LOps, args[4]), args[2], args[3], LExp) = "ok"
-    /\ LazyWhy(LOps, LazyTab(LOps, args[4]), args[2], args[3], SubSeq(LExp, 2, Len(LExp))) # "ok"
+    /\ LazyWhy(LOps, LazyTab(LOps, args[4]), args[2], args[3], LExp, LInv) = "ok"
+    /\ LazyWhy(LOps, LazyTab(LOps, args[4]), args[2], args[3], SubSeq(LExp, 2, Len(LExp)), LInv) # "ok"
 \* every traversal reports its end exactly once, last
 LazyEnds == phase = "lazy" =>
     /\ LExp[Len(LExp)].v.x = 2
@@ -529,17 +560,25 @@ LazyIsShort == (phase = "lazy" /\ args[2] = "once" /\ ~args[4] /\ NoShare(LOps) 
     SeqOutEq(LExp, ShortSeq(LOps, LazyTab(LOps, FALSE)) \o <<EndO>>)
 \* a pattern made of patterns and constants only: every traversal gives the same sequence
 LazyPatternsRestart ==
-    (phase = "lazy" /\ ~args[4] /\ LOps[Dispatcher(LOps)].k = "pat" /\ \A k \in 1..Len(LOps) : LOps[k].k \notin StatefulK) =>
-        LET once == RunOne(LOps, LazyTab(LOps, FALSE), Cur0(LOps), Fresh0, FALSE, FUEL).outs IN
+    (phase = "lazy" /\ ~args[4] /\ LInv = <<0>> /\ LOps[Dispatcher(LOps)].k = "pat"
+        /\ \A k \in 1..Len(LOps) : LOps[k].k \notin StatefulK) =>
+        LET once == RunOne(LOps, LazyTab(LOps, FALSE), Cur0(LOps), Fresh0, FALSE, FUEL, 1, LInv).outs IN
         /\ (args[2] = "twice" => SeqOutEq(LExp, once \o once \o <<EndO>>))
         /\ (args[2] = "inter" => \A i \in 1..Len(once) : OutEq(LExp[2 * i - 1], once[i]) /\ OutEq(LExp[2 * i], once[i]))
-        /\ (args[2] = "tail" => SeqOutEq(LExp, once \o <<Outc(MarkV, <<>>), EndO>>))
+        /\ (args[2] = "tail" => SeqOutEq(LExp, once \o <<Outc(MarkV(0), <<>>), EndO>>))
 \* a stateful operand is never rewound nor read twice: the indices used at its position strictly increase
 LeafIx(e, k) == IF e.c = <<>> THEN e.v.s[k] ELSE e.c[1].s[k]
 LazyConserves == (phase = "lazy" /\ ~args[4]) =>
-    \A k \in {j \in 1..Len(LOps) : LOps[j].k \in LazyK /\ ~PerTraversal(LOps, j)} :
+    \A k \in {j \in 1..Len(LOps) : LOps[j].k \in LazyK /\ ~PerTraversal(LOps, j) /\ ~Reads(LOps, j)} :
         LET vals == SelectSeq(LExp, LAMBDA e : e.v.x \in {0, 1}) IN
         \A i \in 1..(Len(vals) - 1) : LeafIx(vals[i], k) < LeafIx(vals[i + 1], k)
+\* the input value of a call reaches every operand that reads it, in that very call, however the composition is
+\* traversed; what follows the composition in the enclosing pattern is asked with the input value of the call in which
+\* the composition ended
+LazyInputReaches == (phase = "lazy" /\ ~args[4]) =>
+    \A i \in 1..Len(LExp) :
+        /\ (LExp[i].v.x = 0 /\ LExp[i].c = <<>> => \A k \in 1..Len(LOps) : Reads(LOps, k) => LExp[i].v.s[k] = Inv(LInv, i))
+        /\ (LExp[i].v.x = 3 => LExp[i].v.s = Inv(LInv, i))
 \* through a generator nothing follows an element that raised but the end
 LazyGeneratorDies == (phase = "lazy" /\ args[3] /\ args[2] # "inter") =>
     \A i \in 1..(Len(LExp) - 1) : (LExp[i].c = <<>> /\ LExp[i].v.x = 1) => i = Len(LExp) - 1
